@@ -748,7 +748,8 @@ class ConstEval:
         return wrap(v, it[0], it[1])
 
     def sizeof(self, t):
-        t = t.strip()
+        t = re.sub(r"\b(const|volatile|restrict)\b", "", t).strip()
+        t = re.sub(r"\s+", " ", t)
         it = int_type(t)
         if it:
             return max(1, it[0] // 8)
@@ -757,6 +758,7 @@ class ConstEval:
             return self.sizeof(m.group(1)) * int(m.group(2))
         if t.endswith("*"):
             return 8
+        m = re.match(r"struct (\w+)$", t)
         raise NotConstant("sizeof(%s)" % t)
 
     def try_eval(self, n):
